@@ -25,8 +25,10 @@ SPECS = [
     ("slots", (("c",), ("a", "b")), "none", "none"),
     ("slots-on-dict", (("a",), ("b",)), "none", "none"),
     ("dict-on-slots", (("b",), ("a",)), "none", "none"),
+    ("slots@_", (("a", "c"),), "none", "none"),       # class names with leading underscores (mangling drops them)
+    ("dict@__", (("c",), ("a", "c")), "none", "none"),
 ]
-CONTEXTS = ["top", "list", "dict", "bean-list", "bean-dict", "two-levels"]
+CONTEXTS = ["top", "list", "dict", "bean-list", "bean-dict", "two-levels", "deep40"]
 
 
 class Other(object):
@@ -48,7 +50,7 @@ def unsupported_value(kind):
             "bean": beans.Plain()}[kind]
 
 
-HANDLER_TABLES = ["none", "user", "date", "tuple", "str", "bool", "user+date", "other"]
+HANDLER_TABLES = ["none", "user", "date", "tuple", "str", "bool", "user+date", "other", "list", "dict", "int", "mylist"]
 
 
 class Recorder(object):
@@ -75,6 +77,10 @@ def embed(ctx, x):
         return [x, (x,)]
     if ctx == "dict":
         return {"k": x, "l": [x]}
+    if ctx == "deep40":
+        for i in range(40):
+            x = {"k": x} if i % 2 else (x,) if i % 3 == 0 else [x]
+        return x
     outer = beans.Plain()
     if ctx == "bean-list":
         outer.items = [x]
@@ -140,7 +146,7 @@ class Ref(object):
         names = set(getattr(x, "__dict__", {}))
         for klass in type(x).__mro__:
             for s in vars(klass).get("__slots__", ()):
-                names.add("_%s%s" % (klass.__name__, s) if s.startswith("__") and not s.endswith("__") else s)
+                names.add("_%s%s" % (klass.__name__.lstrip("_"), s) if s.startswith("__") and not s.endswith("__") else s)
         want_keys = {"__jsonclass__"}
         for n in names:
             if n in ignored:
@@ -178,7 +184,12 @@ def build_case(case):
     for i, r in enumerate(real):
         setattr(o, r, ["v-%d" % i, (i, "t"), True, {"k": i}][i % 4])
     extra_field = None
-    if unsup is not None and not hasattr(cls, "__slots__"):
+    if unsup == "subtypes":
+        # values of subclass types: handlers are keyed by the exact type (a handler for list is not used for a list subclass)
+        setattr(o, real[0], gen.MyList([1, ("x", gen.MyList())]))
+        if len(real) > 1:
+            setattr(o, real[1], gen.OrderedDict([("k", (1,)), ("m", gen.MyStr("s"))]))
+    elif unsup is not None and not hasattr(cls, "__slots__"):
         o.extra_field = unsupported_value(unsup)
         extra_field = "extra_field"
     elif unsup is not None:
@@ -211,6 +222,14 @@ def run_case(case):
         add(bool, "bool")
     if table == "other":
         add(Other, "other")
+    if table == "list":
+        add(list, "list")
+    if table == "dict":
+        add(dict, "dict")
+    if table == "int":
+        add(int, "int")
+    if table == "mylist":
+        add(gen.MyList, "mylist")
     cfg_kwargs = {}
     call_kwargs = {}
     ign_attr = "_ignore"
@@ -295,6 +314,9 @@ def cases(tier):
             for table in ("none", "date", "user"):
                 for ctx in ("top", "list", "bean-dict"):
                     yield (si, (), (), table, ctx, "defaults", unsup)
+        for table in ("none", "list", "dict", "int", "mylist", "tuple", "str"):
+            for ctx in CONTEXTS:
+                yield (si, (), (), table, ctx, "defaults", "subtypes")
 
 
 # -- serialisation method name ------------------------------------------------------------
